@@ -140,3 +140,33 @@ def run(ctx):
                 )
     if nsel == 0:
         raise AnalysisError("no value-equality selection on Tag.value found (anchor vanished)", "RedunBackendDb.delete_tags")
+
+    # ---- C24.5 one row per tag hash in a single recording call --------------------------------
+    # record_tags inserts the new Tag / TagEdit rows with add_all(); both tables are keyed by hashes of their content, so the same pair given twice
+    # in one call (tag add X j=1 j=1; two apply_tags with equal job tags in one job) must collapse to one row or the INSERT violates the key.
+    r5 = ctx.rule("C24.5", "rows inserted by record_tags are de-duplicated by their primary key", floor=2)
+    PK = {"new_tags": ("tag_hash",), "new_tag_edits": ("parent_id", "child_id")}
+    nadd = 0
+    for c in calls_in(rt):
+        if last_attr(c) == "add_all" and c.args and isinstance(c.args[0], ast.Name) and c.args[0].id in PK:
+            nadd += 1
+            name = c.args[0].id
+            defs = [n for n in ast.walk(rt) if isinstance(n, ast.Assign) and src(n.targets[0]) == name]
+            ok = False
+            for d in defs:
+                for x in ast.walk(d.value):
+                    if isinstance(x, ast.DictComp):
+                        k = src(x.key)
+                        ok = ok or all(f".{col}" in k for col in PK[name])
+                    if isinstance(x, ast.SetComp) and all(f".{col}" in src(x.elt) for col in PK[name]) and not isinstance(x.elt, ast.Name):
+                        ok = True
+            r5.check(
+                ok,
+                f"{db.rel}:RedunBackendDb.record_tags:{name}:dedup",
+                f"`{name}` is a collection of row objects (distinct objects for equal pairs) that is not keyed by {PK[name]}: giving the same key=value twice for one entity in one call inserts two rows "
+                "with the same hash and the whole recording fails with a UNIQUE-constraint IntegrityError",
+                db.rel,
+                c.lineno,
+            )
+    if nadd < 2:
+        raise AnalysisError("record_tags: add_all(new_tags) / add_all(new_tag_edits) not found", "RedunBackendDb.record_tags")
